@@ -79,7 +79,10 @@ class C12(PropertyCheck):
             "-suffix, --*-subdir, output file or stdout) and class indices of 1..3 digits; reading every "
             "utterance through SpectDataSet/LangDataSet and write_hyp (by index / id / custom name, default or "
             "given directory, any dtype) / write_pdf; sos/eos round trips over all transcripts of length <= 2 "
-            "(1-D and 2-D, empty included); hypothesis stripping incl. sos == eos. non-trivial: >= 1 injected "
+            "(1-D and 2-D, empty included); hypothesis stripping incl. sos == eos; write-back timing (a repairable "
+            "and a fatal defect in the same file / utterance / a later utterance, negative token after the save); "
+            "alignments that are not 1-D through the info-only mode (flattened) and --strict; sub-directory names "
+            "None and ''. non-trivial: >= 1 injected "
             "defect or all three sub-directories in use; distinct by the whole case")
     assumptions = [
         "no GPU in the sandbox: the CUDA clauses (condition 1, repair 1) exist only as a device tag in the "
@@ -88,8 +91,9 @@ class C12(PropertyCheck):
         "loads back as the view",
         "os.listdir of the temporary directory is what the data set sees (the listing is taken before the "
         "data set is built and handed to the Lean model of the discovery)",
-        "non-tensor alignment/reference files, 0-D / >=3-D references in info-only mode, float alignments "
-        "in the info report and negative `fix` values are outside the model",
+        "non-tensor alignment/reference files, negative `fix` values, and - in the info-only mode - non-tensor "
+        "features, 0-D / >=3-D references and float/bool alignments or references are outside the model (an "
+        "info-only case is rewritten before it runs); alignments that are not 1-D are inside (counted flattened)",
     ]
     exhaustive = {"quick": False, "thorough": False}
     quick_budget_s = 150
@@ -158,6 +162,22 @@ class C12(PropertyCheck):
                         if u[s_]["dtype"] not in ("i64",):
                             u[s_]["dtype"] = rng.choice(D.NARROW)
                 yield self._mk_history(d, [fix, None])
+        # --- WHEN a repair reaches the disk (audit): a repairable and a fatal defect in the SAME file (the
+        # repair made in memory is lost), a repaired file followed by a fatal one in the same utterance / a
+        # later utterance (it stays), the negative token found only after the reference was saved
+        for case in self._timing_cases():
+            yield case
+        # --- alignments that are not 1-D: rejected with validation, counted entry by entry (flattened by
+        # unique_consecutive) by the info-only mode
+        for i in range(6 if not big else 30):
+            base = D.base_dir(rng, rng.randrange(1, 4), True, rng.choice([0, 1, 2]))
+            d = D.inject(rng, base, ["ali_nd"], 1)
+            for mode in ("info", "strict"):
+                case = {"kind": "info", "utts": copy.deepcopy(d["utts"]), "dirs": d["dirs"],
+                        "defects": d["defects"], "mode": mode, "fix": None}
+                if i % 3 == 0:
+                    D.big_classes(rng, case)
+                yield case
         # --- companion sub-directories that exist but hold no file that counts (not in use)
         for s_, kind in (("ali", "prefix-only"), ("ref", "suffix-only"), ("ali", "neither"), ("ref", "neither")):
             base = D.base_dir(rng, 2, s_ != "ali", 2 if s_ != "ref" else 0)
@@ -204,7 +224,7 @@ class C12(PropertyCheck):
                 case["lang"] = True
             if rng.random() < 0.75:
                 case["layout"] = D.rand_layout(rng, case)
-                if lang and case["layout"].get("sub", {}).get("ref", "ref") is None:
+                if lang and not case["layout"].get("sub", {}).get("ref", "ref"):
                     del case["layout"]["sub"]["ref"]
             # token ids 10..13, so that sos/eos can take values that occur as segment boundaries (0..T, -1..-3)
             for u in d["utts"]:
@@ -300,6 +320,49 @@ class C12(PropertyCheck):
                     self._tame_for_info(case)
                 yield case
 
+    def _timing_cases(self):
+        def feat(T):
+            return {"tensor": True, "dtype": "f32", "dev": "cpu", "dims": [T, 2]}
+
+        def ali(v, dt="i64"):
+            return {"dtype": dt, "dev": "cpu", "vec": v}
+
+        def ref2(rows, dt="i64"):
+            return {"dtype": dt, "dev": "cpu", "d2": rows}
+
+        def ref1(t, dt="i64"):
+            return {"dtype": dt, "dev": "cpu", "d1": t}
+
+        # (label, alignment, reference, tolerance) of the defective utterance; T = 2
+        specs = [
+            ("halfopen_then_reversed", ali([0, 1, 1], "i32"), ref2([[1, 0, -1], [2, 2, 1]], "i32"), 1),
+            ("overshoot_then_too_far", ali([0, 1]), ref2([[1, 0, 3], [2, 0, 7]]), 1),
+            ("halfopen_then_start_beyond", ali([0, 1]), ref2([[1, -2, 1], [2, 3, 3]], "i16"), 2),
+            ("ali_narrow_too_long", ali([0, 1, 1, 1, 1], "i16"), ref2([[1, 0, 3]]), 1),
+            ("ali_narrow_short", ali([0], "u8"), ref2([[1, 0, 3]], "i32"), 2),
+            ("ref_narrow_negtoken_1d", ali([0, 1, 0], "i8"), ref1([-1, 2], "i16"), 1),
+            ("overshoot_negtoken", ali([0, 1]), ref2([[-1, 0, 3], [1, 2, -1]]), 1),
+            ("ref_narrow_width", ali([0, 1, 1]), {"dtype": "i32", "dev": "cpu", "d2w": [1, 2]}, 1),
+            ("ref_narrow_mixed", ali([0, 1, 1], "i32"), ref1([1, 2], "i32"), 1),
+        ]
+        for label, a, r, k in specs:
+            two_d = "d2" in r or "d2w" in r or label == "ref_narrow_mixed"
+            good_ref = ref2([[1, 0, 2], [0, -1, -1]]) if two_d else ref1([1, 0])
+            rep_ref = ref2([[1, 0, 3], [0, 1, -1]], "i32") if two_d else ref1([1, 0], "u8")
+            bad = {"name": "u1", "feat": feat(2), "ali": copy.deepcopy(a), "ref": copy.deepcopy(r)}
+            good = {"name": "u0", "feat": feat(2), "ali": ali([0, 1]), "ref": good_ref}
+            repairable = {"name": "u0", "feat": feat(3), "ali": ali([0, 1, 1, 2], "i32"), "ref": rep_ref}
+            for first in (good, repairable):
+                for tail in ([], [{"name": "u2", "feat": feat(1), "ali": ali([0, 0], "i32"),
+                                   "ref": copy.deepcopy(rep_ref)}]):
+                    utts = [copy.deepcopy(first), copy.deepcopy(bad)] + copy.deepcopy(tail)
+                    yield {"kind": "history", "utts": utts, "dirs": ["feat", "ali", "ref"],
+                           "defects": ["timing_" + label + "@1"], "calls": [k, None, 7]}
+            # the defective utterance comes first: nothing after it is touched
+            utts = [dict(copy.deepcopy(bad), name="u0"), dict(copy.deepcopy(repairable), name="u1")]
+            yield {"kind": "history", "utts": utts, "dirs": ["feat", "ali", "ref"],
+                   "defects": ["timing_" + label + "@0"], "calls": [k, 0]}
+
     def _rand_cfg(self, rng, case):
         """A random view configuration of the data set that validates the directory."""
         sub = case.get("layout", {}).get("sub", {})
@@ -351,9 +414,9 @@ class C12(PropertyCheck):
             f["tensor"] = True
             if u.get("ali") is not None:
                 a = u["ali"]
-                if "nd" in a:
-                    u["ali"] = {"dtype": "i64", "dev": "cpu", "vec": []}
-                elif a["dtype"] in ("f16", "f32", "f64", "bool"):
+                # an alignment that is not 1-D is kept: unique_consecutive flattens it, the report
+                # counts it entry by entry in storage order (model: AliData.flat)
+                if a["dtype"] in ("f16", "f32", "f64", "bool"):
                     a["dtype"] = "i32"
             if u.get("ref") is not None:
                 r = u["ref"]
@@ -993,7 +1056,7 @@ class C12(PropertyCheck):
                 t.append("layout: any")
                 t.append(f"layout: prefix={lay.get('prefix', '')!r} suffix={lay.get('suffix', '.pt')!r}")
                 for k_, v_ in sorted(lay.get("sub", {}).items()):
-                    t.append(f"layout: {k_}_subdir={'None' if v_ is None else 'renamed'}")
+                    t.append(f"layout: {k_}_subdir={'None' if v_ is None else ('empty string' if v_ == '' else 'renamed')}")
                 if lay.get("subset"):
                     t.append("layout: subset_ids")
                 if lay.get("stray"):
